@@ -1100,7 +1100,10 @@ class World:
                 return VNone()
             return VFunc("list.insert", ins)
         if name == "add" and s.sk == "set":
-            raise Unsupported("set.add")
+            # membership and emptiness are all that is asked of these sets: a duplicate entry is harmless
+            return VFunc("set.add", lambda ex_, a, k: (w.ext.list_append(ex_, s, a[0]), VNone())[1])
+        if name == "update" and s.sk == "set":
+            return VFunc("set.update", lambda ex_, a, k: (w.ext.list_extend(ex_, s, a[0]), VNone())[1])
         if name == "decode" and s.sk == "bytes":
             def dec(ex_, a, k):
                 errors = k.get("errors")
@@ -1646,6 +1649,8 @@ class World:
         f = self.spec_funcs.get(name)
         if f is not None:
             return VFunc(name, lambda ex_, a, k, f=f: f(ex_, frame, *a, **k))
+        if name == "unprovided":
+            return VOpaque("unprovided")
         o = getattr(self.utype_exc, name, None) or getattr(builtins, name, None)
         if isinstance(o, type) and issubclass(o, BaseException):
             return self.classes.of_py(o)
